@@ -307,8 +307,9 @@ theorem Attack_rate_cts_time_from_graph_rho (A : WArgs) (adj : List (List Nat)) 
 
 /-- (A) explicit disjoint sets of graph nodes: `N`, `R0` = number of recovered nodes, `phiS0 = SS/SX`, `phiR0 = SR/SX`,
 `psihat(x) = Σ_k Pk[k]·Sk0[k]·x^k/Nk[k]` = the graph's ψ̂ for ALL `x` (here `Sk0[k]` COUNTS the susceptible nodes of
-degree `k` and each term is divided by `Nk[k]`), `psihatPrime` = ψ̂' for `x ≠ 0` or a graph without isolated nodes — and
-`psihatPrime(0)` RAISES ZeroDivisionError when the graph has an isolated node; `N·psihat(1)` = number of susceptible nodes -/
+degree `k` and each term is divided by `Nk[k]`), `psihatPrime` = ψ̂' for ALL `x` as well — `x = 0` and graphs with isolated
+nodes included: the sum skips `k = 0` (`… for k in Pk if k>0`), so `0.0 ** (-1)` is never evaluated and `psihatPrime`
+NEVER raises; `N·psihat(1)` = number of susceptible nodes -/
 theorem EBCM_discrete_args_spec (A : WArgs) (adj : List (List Nat)) (hW : GraphOKW A adj) (p : Rat)
     (infs : List Node) (recs : Option (List Node)) (hS : SetsOK adj infs (recs.getD [])) (hN : adj.length ≠ 0)
     (tmin tmax : Int) (full : Bool) :
@@ -318,33 +319,30 @@ theorem EBCM_discrete_args_spec (A : WArgs) (adj : List (List Nat)) (hW : GraphO
       a.phiS0 = phiG adj (statusOf infs (recs.getD [])) St.S ∧
       a.phiR0 = phiG adj (statusOf infs (recs.getD [])) St.R ∧
       (∀ x, a.psihat x = .ok (psiHatG adj (statusOf infs (recs.getD [])) x)) ∧
-      (∀ x, x ≠ 0 ∨ 0 ∉ adj.map (·.length) → a.psihatPrime x = .ok (psiHatPG adj (statusOf infs (recs.getD [])) x)) ∧
-      (0 ∈ adj.map (·.length) → a.psihatPrime 0 = .error "ZeroDivisionError") ∧
+      (∀ x, a.psihatPrime x = .ok (psiHatPG adj (statusOf infs (recs.getD [])) x)) ∧
       a.N * psiHatG adj (statusOf infs (recs.getD [])) 1 = (count adj (statusOf infs (recs.getD [])) St.S : Rat) ∧
       a.p = p ∧ a.tmin = tmin ∧ a.tmax = tmax ∧ a.return_full_data = full := by
   have hG := hW.toGraphOK
   have hst := C06c.gen_status_eq A.toIArgs adj hG.hasNode infs (recs.getD []) hS.disj hS.infIn hS.recIn
-  obtain ⟨a, ha, h1, h2, h3, h4, h5, h6, h7, h8⟩ :=
+  obtain ⟨a, ha, h1, h2, h3, h4, h5, h6, h8⟩ :=
     EBCMd_sets A p infs recs tmin tmax full _ hst (nodes_ne_nil A adj hG hN)
   rw [phiOf_graph A adj hW] at h3 h4
   rw [Sk0fin_graph A adj hG, degs_eq A.toIArgs adj hG] at h5 h6
-  rw [degs_eq A.toIArgs adj hG] at h7
   rw [nodes_length A.toIArgs adj hG] at h1
   rw [filterR_graph A adj hG] at h2
-  refine ⟨a, ha, h1, h2, h3, h4, h5, h6, h7, ?_, h8⟩
+  refine ⟨a, ha, h1, h2, h3, h4, h5, h6, ?_, h8⟩
   rw [h1]; exact psiHat_one adj _ hN
 
-/-- (A) without `initial_infecteds`: `rho` (default `1/N`): `psihat = (1-rho)ψ`, `psihatPrime = (1-rho)ψ'` (raising at 0
-on a graph with an isolated node), `phiS0 = 1-rho`, `phiR0 = 0`, `R0 = 0`, `N·psihat(1) = (1-rho)N` -/
+/-- (A) without `initial_infecteds`: `rho` (default `1/N`): `psihat = (1-rho)ψ`, `psihatPrime = (1-rho)ψ'` for ALL `x`
+(the sum skips `k = 0`: no exception at 0, isolated nodes or not), `phiS0 = 1-rho`, `phiR0 = 0`, `R0 = 0`,
+`N·psihat(1) = (1-rho)N` -/
 theorem EBCM_discrete_args_rho (A : WArgs) (adj : List (List Nat)) (hG : GraphOK A.toIArgs adj) (p : Rat)
     (recs : Option (List Node)) (rho : Option Rat) (hrr : ¬ (rho.isSome ∧ recs.isSome)) (hN : adj.length ≠ 0)
     (tmin tmax : Int) (full : Bool) :
     ∃ a, EBCM_discrete_from_graph_args A p none recs rho tmin tmax full = .ok a ∧
       a.N = (adj.length : Rat) ∧ a.R0 = 0 ∧ a.phiS0 = 1 - rho.getD (1 / (adj.length : Rat)) ∧ a.phiR0 = 0 ∧
       (∀ x, a.psihat x = .ok ((1 - rho.getD (1 / (adj.length : Rat))) * psiK (PkAL (adj.map (·.length))) x)) ∧
-      (∀ x, x ≠ 0 ∨ 0 ∉ adj.map (·.length) →
-        a.psihatPrime x = .ok ((1 - rho.getD (1 / (adj.length : Rat))) * psiKP (PkAL (adj.map (·.length))) x)) ∧
-      (0 ∈ adj.map (·.length) → a.psihatPrime 0 = .error "ZeroDivisionError") ∧
+      (∀ x, a.psihatPrime x = .ok ((1 - rho.getD (1 / (adj.length : Rat))) * psiKP (PkAL (adj.map (·.length))) x)) ∧
       a.N * ((1 - rho.getD (1 / (adj.length : Rat))) * psiK (PkAL (adj.map (·.length))) 1)
         = rhoS adj (rho.getD (1 / (adj.length : Rat))) ∧
       a.p = p ∧ a.tmin = tmin ∧ a.tmax = tmax ∧ a.return_full_data = full := by
@@ -352,10 +350,10 @@ theorem EBCM_discrete_args_rho (A : WArgs) (adj : List (List Nat)) (hG : GraphOK
     cases rho with
     | some r => rfl
     | none => simp [rhoOr, nodes_length A.toIArgs adj hG, hN]
-  obtain ⟨a, ha, h1, h2, h3, h4, h5, h6, h7, h8⟩ := (EBCMd_rho A p recs rho hrr tmin tmax full).2 _ hr
-  rw [degs_eq A.toIArgs adj hG] at h5 h6 h7
+  obtain ⟨a, ha, h1, h2, h3, h4, h5, h6, h8⟩ := (EBCMd_rho A p recs rho hrr tmin tmax full).2 _ hr
+  rw [degs_eq A.toIArgs adj hG] at h5 h6
   rw [nodes_length A.toIArgs adj hG] at h1
-  refine ⟨a, ha, h1, h2, h3, h4, h5, h6, h7, ?_, h8⟩
+  refine ⟨a, ha, h1, h2, h3, h4, h5, h6, ?_, h8⟩
   have hd : adj.map (·.length) ≠ [] := by
     intro e; exact hN (by simpa using congrArg List.length e)
   rw [h1, psiK_one _ hd, rhoS]; ring
@@ -379,12 +377,14 @@ theorem EBCM_discrete_args_error (A : WArgs) (p : Rat) (tmin tmax : Int) (full :
   · obtain ⟨a, ha, -⟩ := (EBCMd_rho A p none (some r) (by simp) tmin tmax full).2 r rfl
     exact ⟨a, ha⟩
 
-/-- (C) in EVERY non-error case the `N` handed to `EBCM_discrete` is `G.order()`, `psihat` is total, `R0 ≥ 0` is a node
+/-- (C) in EVERY non-error case the `N` handed to `EBCM_discrete` is `G.order()`, `psihat` AND `psihatPrime` are total
+(neither callback ever raises), `R0 ≥ 0` is a node
 count or 0, and `p`, `tmin`, `tmax`, `return_full_data` are passed on -/
 theorem EBCM_discrete_args_total (A : WArgs) (p : Rat) (infs recs : Option (List Node)) (rho : Option Rat)
     (tmin tmax : Int) (full : Bool) (a : EBCM_discrete_Args)
     (h : EBCM_discrete_from_graph_args A p infs recs rho tmin tmax full = .ok a) :
     a.N = (A.nodes.length : Rat) ∧ (∃ f : Rat → Rat, ∀ x, a.psihat x = .ok (f x)) ∧
+    (∃ f' : Rat → Rat, ∀ x, a.psihatPrime x = .ok (f' x)) ∧
     a.p = p ∧ a.tmin = tmin ∧ a.tmax = tmax ∧ a.return_full_data = full := by
   by_cases hb : rho.isSome ∧ (infs.isSome ∨ recs.isSome)
   · obtain ⟨r, rfl⟩ := Option.isSome_iff_exists.mp hb.1
@@ -401,15 +401,15 @@ theorem EBCM_discrete_args_total (A : WArgs) (p : Rat) (infs recs : Option (List
       | ok st =>
         by_cases hN : A.nodes = []
         · rw [(EBCMd_sets_error A p l recs tmin tmax full).2 st hst hN] at h; cases h
-        · obtain ⟨a', ha', h1, -, -, -, h5, -, -, h8⟩ := EBCMd_sets A p l recs tmin tmax full st hst hN
-          rw [h] at ha'; injection ha' with ha'; subst ha'; exact ⟨h1, ⟨_, h5⟩, h8⟩
+        · obtain ⟨a', ha', h1, -, -, -, h5, h6, h8⟩ := EBCMd_sets A p l recs tmin tmax full st hst hN
+          rw [h] at ha'; injection ha' with ha'; subst ha'; exact ⟨h1, ⟨_, h5⟩, ⟨_, h6⟩, h8⟩
     | none =>
       have hrr : ¬ (rho.isSome ∧ recs.isSome) := fun hh => hb ⟨hh.1, Or.inr hh.2⟩
       cases hr : rhoOr A rho with
       | error e => rw [(EBCMd_rho A p recs rho hrr tmin tmax full).1 e hr] at h; cases h
       | ok r =>
-        obtain ⟨a', ha', h1, -, -, -, h5, -, -, h8⟩ := (EBCMd_rho A p recs rho hrr tmin tmax full).2 r hr
-        rw [h] at ha'; injection ha' with ha'; subst ha'; exact ⟨h1, ⟨_, h5⟩, h8⟩
+        obtain ⟨a', ha', h1, -, -, -, h5, h6, h8⟩ := (EBCMd_rho A p recs rho hrr tmin tmax full).2 r hr
+        rw [h] at ha'; injection ha' with ha'; subst ha'; exact ⟨h1, ⟨_, h5⟩, ⟨_, h6⟩, h8⟩
 
 /-! ## 4. `EBCM_discrete_from_graph` composed with the generated `GenHelp.EBCM_discrete` (through C08c) -/
 
@@ -447,14 +447,14 @@ theorem discreteRun_of_total (N : Rat) (f f' : Rat → Rat) (p phiS0 phiR0 R0 : 
 
 /-- (D) end to end, ANY request (sets, `rho`, default), with or without full data, EVERY successful call:
 the result is `[times, S, I, R(, theta)]` with `tmax - tmin + 1` rows, **`S + I + R = G.order()` at every index**,
-`R(n+1) = R(n) + I(n)`, `times = tmin, tmin+1, …`.  (No hypothesis on the graph: a `psihatPrime` that raised would have
-made the call fail.) -/
+`R(n+1) = R(n) + I(n)`, `times = tmin, tmin+1, …`.  (No hypothesis on the graph; `psihat` and `psihatPrime` never raise,
+`EBCM_discrete_args_total`.) -/
 theorem EBCM_discrete_from_graph_conserve (A : WArgs) (p : Rat) (infs recs : Option (List Node)) (rho : Option Rat)
     (tmin tmax : Int) (full : Bool) (l : List (List Rat))
     (h : EBCM_discrete_from_graph A p infs recs rho tmin tmax full = .ok l) :
     ∃ (f : Rat → Rat) (R0 : Rat), DiscreteRun (A.nodes.length : Rat) R0 f tmin tmax full l := by
   obtain ⟨a, ha, hl⟩ := EBCM_discrete_from_graph_inv A p infs recs rho tmin tmax full l h
-  obtain ⟨hN, ⟨f, hf⟩, -, h2, h3, h4⟩ := EBCM_discrete_args_total A p infs recs rho tmin tmax full a ha
+  obtain ⟨hN, ⟨f, hf⟩, -, -, h2, h3, h4⟩ := EBCM_discrete_args_total A p infs recs rho tmin tmax full a ha
   have := EBCM_discrete_agree a.N a.psihat a.psihatPrime f (PyWrap.total a.psihatPrime) hf
     (fun x y hy => total_of_ok _ x y hy) _ _ _ _ _ _ _ l hl
   rw [hN, h2, h3, h4] at this
@@ -480,17 +480,12 @@ theorem EBCM_discrete_from_graph_init (A : WArgs) (adj : List (List Nat)) (hW : 
       (infs.Nodup → (recs.getD []).Nodup →
         I.getD 0 0 = (infs.length : Rat) ∧ R.getD 0 0 = ((recs.getD []).length : Rat)) := by
   obtain ⟨a, ha, hl⟩ := EBCM_discrete_from_graph_inv A p _ _ _ tmin tmax full l h
-  obtain ⟨a', ha', e1, e2, e3, e4, e5, e6, e7, e8, e9, e10, e11, e12⟩ :=
+  obtain ⟨a', ha', e1, e2, e3, e4, e5, e6, e8, e9, e10, e11, e12⟩ :=
     EBCM_discrete_args_spec A adj hW p infs recs hS hN tmin tmax full
   rw [ha] at ha'; injection ha' with ha'; subst ha'
   have hag : ∀ x y, a.psihatPrime x = .ok y → psiHatPG adj (statusOf infs (recs.getD [])) x = y := by
     intro x y hy
-    by_cases hx : x ≠ 0 ∨ 0 ∉ adj.map (·.length)
-    · rw [e6 x hx] at hy; injection hy
-    · have hx0 : x = 0 := by by_contra hne; exact hx (Or.inl hne)
-      have h0 : 0 ∈ adj.map (·.length) := by by_contra hne; exact hx (Or.inr hne)
-      subst hx0
-      rw [e7 h0] at hy; cases hy
+    rw [e6 x] at hy; injection hy
   have hrun := EBCM_discrete_agree a.N a.psihat a.psihatPrime _ _ e5 hag _ _ _ _ _ _ _ l hl
   rw [e1, e2, e3, e4, e9, e10, e11, e12] at hrun
   have hD := discreteRun_of_total _ _ _ _ _ _ _ _ _ _ l hrun
@@ -525,18 +520,13 @@ theorem EBCM_discrete_from_graph_init_rho (A : WArgs) (adj : List (List Nat)) (h
       S.getD 0 0 = rhoS adj (rho.getD (1 / (adj.length : Rat))) ∧
       I.getD 0 0 = rhoI adj (rho.getD (1 / (adj.length : Rat))) ∧ R.getD 0 0 = 0 := by
   obtain ⟨a, ha, hl⟩ := EBCM_discrete_from_graph_inv A p _ _ _ tmin tmax full l h
-  obtain ⟨a', ha', e1, e2, e3, e4, e5, e6, e7, e8, e9, e10, e11, e12⟩ :=
+  obtain ⟨a', ha', e1, e2, e3, e4, e5, e6, e8, e9, e10, e11, e12⟩ :=
     EBCM_discrete_args_rho A adj hG p recs rho hrr hN tmin tmax full
   rw [ha] at ha'; injection ha' with ha'; subst ha'
   have hag : ∀ x y, a.psihatPrime x = .ok y →
       (1 - rho.getD (1 / (adj.length : Rat))) * psiKP (PkAL (adj.map (·.length))) x = y := by
     intro x y hy
-    by_cases hx : x ≠ 0 ∨ 0 ∉ adj.map (·.length)
-    · rw [e6 x hx] at hy; injection hy
-    · have hx0 : x = 0 := by by_contra hne; exact hx (Or.inl hne)
-      have h0 : 0 ∈ adj.map (·.length) := by by_contra hne; exact hx (Or.inr hne)
-      subst hx0
-      rw [e7 h0] at hy; cases hy
+    rw [e6 x] at hy; injection hy
   have hrun := EBCM_discrete_agree a.N a.psihat a.psihatPrime _ _ e5 hag _ _ _ _ _ _ _ l hl
   rw [e1, e2, e3, e4, e9, e10, e11, e12] at hrun
   have hD := discreteRun_of_total _ _ _ _ _ _ _ _ _ _ l hrun
@@ -552,10 +542,11 @@ theorem EBCM_discrete_from_graph_init_rho (A : WArgs) (adj : List (List Nat)) (h
   exact ⟨S, I, R, by subst hl'; cases full <;> rfl, by subst hl'; cases full <;> rfl,
     by subst hl'; cases full <;> rfl, s0, hI, r0⟩
 
-/-- on a graph WITHOUT ISOLATED NODES the composed wrapper never fails once the argument record is built (explicit sets
-of graph nodes / `rho` / default on a graph with nodes) -/
+/-- on EVERY graph with nodes — isolated nodes ALLOWED (no hypothesis on the degrees: `psihatPrime` skips `k = 0` and is
+total) — the composed wrapper never fails once the argument record is built: explicit sets of graph nodes / `rho` /
+default, i.e. every call with a valid request SUCCEEDS -/
 theorem EBCM_discrete_from_graph_ok (A : WArgs) (adj : List (List Nat)) (hW : GraphOKW A adj) (p : Rat)
-    (hN : adj.length ≠ 0) (hiso : 0 ∉ adj.map (·.length)) (tmin tmax : Int) (full : Bool) :
+    (hN : adj.length ≠ 0) (tmin tmax : Int) (full : Bool) :
     (∀ infs recs, SetsOK adj infs (recs.getD []) →
       ∃ l, EBCM_discrete_from_graph A p (some infs) recs none tmin tmax full = .ok l) ∧
     (∀ recs rho, ¬ (rho.isSome ∧ recs.isSome) →
@@ -566,7 +557,7 @@ theorem EBCM_discrete_from_graph_ok (A : WArgs) (adj : List (List Nat)) (hW : Gr
     unfold EBCM_discrete_from_graph
     rw [ha]
     simp only [GenHelpProofs.ok_bind]
-    rw [EBCM_discrete_of_total a.N a.psihat a.psihatPrime _ _ e5 (fun x => e6 x (Or.inr hiso)),
+    rw [EBCM_discrete_of_total a.N a.psihat a.psihatPrime _ _ e5 e6,
       GenHelpFinal.gen_EBCM_discrete_eq]
     exact ⟨_, rfl⟩
   · intro recs rho hrr
@@ -574,13 +565,13 @@ theorem EBCM_discrete_from_graph_ok (A : WArgs) (adj : List (List Nat)) (hW : Gr
     unfold EBCM_discrete_from_graph
     rw [ha]
     simp only [GenHelpProofs.ok_bind]
-    rw [EBCM_discrete_of_total a.N a.psihat a.psihatPrime _ _ e5 (fun x => e6 x (Or.inr hiso)),
+    rw [EBCM_discrete_of_total a.N a.psihat a.psihatPrime _ _ e5 e6,
       GenHelpFinal.gen_EBCM_discrete_eq]
     exact ⟨_, rfl⟩
 
 /-- (D) **KEY LINK on the graph**: `Attack_rate_discrete_from_graph(number_its = n)` is `(I(n) + R(n))/N = 1 − S(n)/N`
 of the data returned by `EBCM_discrete_from_graph(tmin = 0, tmax = n)` for the same explicit sets — for EVERY successful
-run of the latter (on a graph without isolated nodes: always, `EBCM_discrete_from_graph_ok`) -/
+run of the latter (there always is one, isolated nodes or not: `EBCM_discrete_from_graph_ok`) -/
 theorem Attack_rate_discrete_from_graph_is_EBCM (A : WArgs) (adj : List (List Nat)) (hW : GraphOKW A adj) (p : Rat)
     (infs : List Node) (recs : Option (List Node)) (hS : SetsOK adj infs (recs.getD [])) (hN : adj.length ≠ 0)
     (n : Nat) (l : List (List Rat))
@@ -848,22 +839,48 @@ example : Attack_rate_discrete_from_graph exW (1 / 2) (some [0]) none (some (1 /
     Attack_rate_discrete_from_graph emptyW (1 / 2) none none (some (1 / 2)) 1 = .error "ZeroDivisionError" ∧
     Attack_rate_cts_time_from_graph emptyW 1 1 none none none 1 = .error "ZeroDivisionError" := by
   refine ⟨by decide +kernel, by decide +kernel, by decide +kernel, by decide +kernel, by decide +kernel, by decide +kernel⟩
-/-- COUNTER-EXAMPLE (the hypothesis "no isolated node" of `EBCM_discrete_from_graph_ok` is needed): edge 0–1 plus the
-isolated node 2 (`isoW` of C06g), node 0 infected, `p = 1`: `phiS0 = 0` so `θ_1 = 0`, and the second step calls
-`psihatPrime(0)`, which evaluates `0.0 ** (-1)` for the degree-0 class: ZeroDivisionError — while one step is fine and
-`Attack_rate_discrete_from_graph` (whose base function skips `k = 0`) returns `2/3` -/
+/-- ISOLATED NODES ARE FINE (`EBCM_discrete_from_graph_ok` needs no hypothesis on the degrees): edge 0–1 plus the isolated
+node 2 (`isoW` of C06g), node 0 infected, `p = 1`: `phiS0 = 0` so `θ_1 = 0`, and the second step calls `psihatPrime(0)` —
+which SKIPS the degree-0 class (`… for k in Pk if k>0`; before the correction of the source it evaluated `0.0 ** (-1)`:
+ZeroDivisionError) and returns `ψ̂'(0) = 1/3`: the call SUCCEEDS, `S + I + R = 3` at every index (`(2,1,0)`, `(1,1,1)`,
+`(1,0,2)`; `theta = 1, 0, 0`), and `Attack_rate_discrete_from_graph` returns `2/3 = (I(2) + R(2))/3` of those data; likewise
+with `rho = 1` and with the default `rho = 1/3` -/
 example : EBCM_discrete_from_graph isoW 1 (some [0]) none none 0 1 false = .ok [[0, 1], [2, 1], [1, 1], [0, 1]] ∧
-    EBCM_discrete_from_graph isoW 1 (some [0]) none none 0 2 false = .error "ZeroDivisionError" ∧
-    Attack_rate_discrete_from_graph isoW 1 (some [0]) none none 2 = .ok (2 / 3) ∧
-    EBCM_discrete_from_graph isoW 1 none none (some 1) 0 2 false = .error "ZeroDivisionError" := by
-  refine ⟨by decide +kernel, by decide +kernel, by decide +kernel, by decide +kernel⟩
+    EBCM_discrete_from_graph isoW 1 (some [0]) none none 0 2 false = .ok [[0, 1, 2], [2, 1, 1], [1, 1, 0], [0, 1, 2]] ∧
+    EBCM_discrete_from_graph isoW 1 (some [0]) none none 0 2 true =
+      .ok [[0, 1, 2], [2, 1, 1], [1, 1, 0], [0, 1, 2], [1, 0, 0]] ∧
+    ((2 + 1 + 0 : Rat) = 3 ∧ (1 + 1 + 1 : Rat) = 3 ∧ (1 + 0 + 2 : Rat) = 3) ∧
+    Attack_rate_discrete_from_graph isoW 1 (some [0]) none none 2 = .ok (2 / 3) ∧ ((0 + 2) / 3 : Rat) = 2 / 3 ∧
+    EBCM_discrete_from_graph isoW 1 none none (some 1) 0 2 false = .ok [[0, 1, 2], [0, 0, 0], [3, 0, 0], [0, 3, 3]] ∧
+    EBCM_discrete_from_graph isoW 1 none none none 0 2 false =
+      .ok [[0, 1, 2], [2, 14 / 9, 14 / 9], [1, 4 / 9, 0], [0, 1, 13 / 9]] := by
+  refine ⟨by decide +kernel, by decide +kernel, by decide +kernel, ⟨by decide +kernel, by decide +kernel, by decide +kernel⟩,
+    by decide +kernel, by decide +kernel, by decide +kernel, by decide +kernel⟩
+/-- … `psihatPrime(0)` of those argument records: a value, not an exception (`1·Pk[1]·Sk0[1]·0^0/Nk[1] = (2/3)·1/2`) -/
+example : ((EBCM_discrete_from_graph_args isoW 1 (some [0]) none none 0 2 false).toOption.bind
+    fun a => (a.psihatPrime 0).toOption) = some (1 / 3) ∧
+    ((EBCM_discrete_from_graph_args isoW 1 none none (some (1 / 2)) 0 2 false).toOption.bind
+    fun a => (a.psihatPrime 0).toOption) = some (1 / 3) := by
+  constructor <;> decide +kernel
+/-- … and `EBCM_discrete_from_graph_ok` instantiated on `isoW` (an isolated node; explicit sets, `rho`, default; any `p`,
+`tmin`, `tmax`) -/
+theorem isoW_okW : GraphOKW isoW [[1], [0], []] :=
+  ⟨GraphOK.of_check isoW.toIArgs [[1], [0], []] (by intro u; simp [isoW]) (by decide +kernel), fun u hu => by
+    have : u = 0 ∨ u = 1 ∨ u = 2 := by simp at hu; omega
+    rcases this with rfl | rfl | rfl <;> rfl⟩
+example (p : Rat) (tmin tmax : Int) (full : Bool) :
+    (∃ l, EBCM_discrete_from_graph isoW p (some [0]) none none tmin tmax full = .ok l) ∧
+    (∃ l, EBCM_discrete_from_graph isoW p none none (some 1) tmin tmax full = .ok l) ∧
+    (∃ l, EBCM_discrete_from_graph isoW p none none none tmin tmax full = .ok l) := by
+  obtain ⟨h1, h2⟩ := EBCM_discrete_from_graph_ok isoW [[1], [0], []] isoW_okW p (by decide) tmin tmax full
+  exact ⟨h1 [0] none ⟨by decide, by decide, by decide⟩, h2 none (some 1) (by simp), h2 none none (by simp)⟩
 /-- the theorems instantiated on `exW` -/
 example : ∃ times S I R : List Rat,
     EBCM_discrete_from_graph exW (1 / 2) (some [0]) (some [3]) none 0 2 false = .ok [times, S, I, R] ∧
     Attack_rate_discrete_from_graph exW (1 / 2) (some [0]) (some [3]) none 2 = .ok ((I.getD 2 0 + R.getD 2 0) / 4) ∧
     S.getD 0 0 = 2 ∧ I.getD 0 0 = 1 ∧ R.getD 0 0 = 1 := by
   have hS : SetsOK C06c.exAdj [0] ((some [3] : Option (List Node)).getD []) := ⟨by decide, by decide, by decide⟩
-  obtain ⟨l, hl⟩ := (EBCM_discrete_from_graph_ok exW C06c.exAdj exW_okW (1 / 2) (by decide) (by decide) 0 2 false).1
+  obtain ⟨l, hl⟩ := (EBCM_discrete_from_graph_ok exW C06c.exAdj exW_okW (1 / 2) (by decide) 0 2 false).1
     [0] (some [3]) hS
   obtain ⟨times, S, I, R, e, h1, -⟩ := Attack_rate_discrete_from_graph_is_EBCM exW C06c.exAdj exW_okW (1 / 2) [0]
     (some [3]) hS (by decide) 2 l hl
